@@ -321,14 +321,19 @@ class SimulationAlgorithm(BaseSimulationAlgorithm):
             }
 
         elif self.visit_type == VisitType.RANDOM:
+            # a parameter that is not provided is reported by `_check_params` (missing parameters)
             self.param_study = {
-                "patient_number": dict_param["patient_number"],
-                "first_visit_mean": dict_param["first_visit_mean"],
-                "first_visit_std": dict_param["first_visit_std"],
-                "time_follow_up_mean": dict_param["time_follow_up_mean"],
-                "time_follow_up_std": dict_param["time_follow_up_std"],
-                "distance_visit_mean": dict_param["distance_visit_mean"],
-                "distance_visit_std": dict_param["distance_visit_std"],
+                param: dict_param[param]
+                for param in (
+                    "patient_number",
+                    "first_visit_mean",
+                    "first_visit_std",
+                    "time_follow_up_mean",
+                    "time_follow_up_std",
+                    "distance_visit_mean",
+                    "distance_visit_std",
+                )
+                if param in dict_param
             }
 
             # Add optional spacing param if provided
